@@ -1,0 +1,21 @@
+//! Verification hooks (compiled only with the `verif-hooks` feature).
+//!
+//! These hooks let an external test harness control inputs that are otherwise taken from
+//! the environment. They add no behaviour when the feature is disabled.
+
+use std::cell::Cell;
+
+thread_local! {
+    static WRAPPER_CREATED_AT: Cell<Option<u64>> = const { Cell::new(None) };
+}
+
+/// Overrides (per thread) the `created_at` of every kind-445 wrapper event built from now on.
+/// `None` restores the wall clock.
+pub fn set_wrapper_created_at(ts: Option<u64>) {
+    WRAPPER_CREATED_AT.with(|c| c.set(ts));
+}
+
+/// Returns the current per-thread override, if any.
+pub fn wrapper_created_at() -> Option<u64> {
+    WRAPPER_CREATED_AT.with(|c| c.get())
+}
